@@ -67,11 +67,27 @@ type vc12Impl struct{ pad int }
 //go:noinline
 func (t *vc12Impl) M(a int) int { return vc12pad(a, 100000) }
 
+// a second interface variable, with two methods
+type vc12If2 interface {
+	A(a int) int
+	B(a int) int
+}
+
+type vc12Impl2 struct{ pad int }
+
+//go:noinline
+func (t *vc12Impl2) A(a int) int { return vc12pad(a, 100000) }
+
+//go:noinline
+func (t *vc12Impl2) B(a int) int { return vc12pad(a, 100000) }
+
 const vc12VarOrig = 7
 
 var (
 	vc12Real = &vc12Impl{}
 	vc12IV   vc12If = vc12Real
+	vc12Real2        = &vc12Impl2{}
+	vc12IV2  vc12If2 = vc12Real2
 	vc12Var         = vc12VarOrig // mocked with Builder.Var(&vc12Var)
 	vc12W           = vc12VarOrig // mocked with Builder.UnExportedVar(vc12Self + ".vc12W")
 )
@@ -168,12 +184,16 @@ func vc12behaviour() string {
 	}
 	sb.WriteString(vc12varClass(vc12Var) + "." + vc12varClass(vc12Var) + ",")
 	sb.WriteString(vc12varClass(vc12W) + "." + vc12varClass(vc12W))
+	for _, f := range []func(int) int{func(a int) int { return vc12IV2.A(a) }, func(a int) int { return vc12IV2.B(a) }} {
+		sb.WriteString("," + vc12class(f, 1) + "." + vc12class(f, 2))
+	}
 	return sb.String()
 }
 
 func vc12clean() {
 	patch.UnpatchAll()
 	vc12IV = vc12Real
+	vc12IV2 = vc12Real2
 	vc12Var = vc12VarOrig
 	vc12W = vc12VarOrig
 }
@@ -236,6 +256,13 @@ func (r *vc12run) lookup(kind, name string) *vc12handle {
 		}
 		m := b.Interface(&vc12IV).Method(name)
 		return &vc12handle{mk: m, stub: func() mocker.ExportedMocker { return m.As(vc12IfAs[lit]) }, cbs: func(k int) interface{} { return vc12IfK[k] }}
+	case "i2":
+		if name != "A" && name != "B" {
+			panic("bad-op")
+		}
+		m := b.Interface(&vc12IV2).Method(name)
+		return &vc12handle{mk: m, stub: func() mocker.ExportedMocker { r.nas++; return m.As(vc12IfAs[r.nas%len(vc12IfAs)]) },
+			cbs: func(k int) interface{} { return vc12IfK[k] }}
 	case "xf":
 		m := b.ExportFunc("vc12" + name)
 		return &vc12handle{mk: m, stub: func() mocker.ExportedMocker { r.nas++; return m.As(vc12FnAs[r.nas%len(vc12FnAs)]) },
